@@ -32,6 +32,9 @@ func GenTrace(t *testing.T, seed int64, steps int, prof Profile, w *bufio.Writer
 	for i := 0; i < steps && !halted; i++ {
 		run(g.Next())
 	}
+	if g.Open && !halted {
+		run("closeblock")
+	}
 	fmt.Fprintf(w, "# end seed=%d\n", seed)
 	return lines
 }
